@@ -1,5 +1,5 @@
 (** C13 — property theorems only.  Each is closed by [exact] of a lemma proved in C13_Proofs.v.
-    Model: C13_Model.v ([integrate_named], [integrate_2d], [integrate_3d], [integrate_3d_spherical]); the boost
+    Model: C13_Model.v ([integrate_named], [integrate_reentrant], [integrate_2d], [integrate_3d], [integrate_3d_spherical]); the boost
     quadratures are the parameter [I], the Monte-Carlo integrators the parameter [MC].
     [selected I m p f lo hi] (C13_Proofs.v) is the call a known name delegates to on ordered limits;
     [okf g] is the integrand [fun x => Ok (g x)]; results are [Ok value] or [Exit] (std::exit). *)
@@ -70,6 +70,29 @@ Theorem C13_named_exact I m p : is_nested_method m = true ->
   forall g a b, ex_RInt g a b -> integrate_named ROps I m (okf g) a b p = Ok (RInt g a b).
 Proof. exact (named_exact I m p). Qed.
 Print Assumptions C13_named_exact.
+
+(** "every named one-dimensional method returns the exact integral" also when the integrand is itself defined through an
+    integral, i.e. when Integrate is called again (with any of the six names and any method_parameter) while it evaluates its
+    integrand: the model carries no state from one call into another, and with exact back ends at both levels the result is
+    the integral of x |-> outer x (integral of inner x from lo x to hi x), for every orientation of the limits at both levels. *)
+Theorem C13_reentrant_integrand I mi q (outer inner : R -> R -> R) (lo hi : R -> R) :
+  is_nested_method mi = true ->
+  (forall g lo hi, lo < hi -> ex_RInt g lo hi -> selected I mi q (okf g) lo hi = Ok (RInt g lo hi)) ->
+  (forall x, ex_RInt (inner x) (lo x) (hi x)) ->
+  reentrant_integrand ROps I mi q outer inner lo hi = okf (fun x => outer x (RInt (inner x) (lo x) (hi x))).
+Proof. exact (reentrant_integrand_exact I mi q outer inner lo hi). Qed.
+Print Assumptions C13_reentrant_integrand.
+
+Theorem C13_reentrant_exact I m p mi q (outer inner : R -> R -> R) (lo hi : R -> R) a b :
+  is_nested_method m = true -> is_nested_method mi = true ->
+  (forall g lo hi, lo < hi -> ex_RInt g lo hi -> selected I m p (okf g) lo hi = Ok (RInt g lo hi)) ->
+  (forall g lo hi, lo < hi -> ex_RInt g lo hi -> selected I mi q (okf g) lo hi = Ok (RInt g lo hi)) ->
+  (forall x, ex_RInt (inner x) (lo x) (hi x)) ->
+  ex_RInt (fun x => outer x (RInt (inner x) (lo x) (hi x))) a b ->
+  integrate_reentrant ROps I m p mi q outer inner lo hi a b
+  = Ok (RInt (fun x => outer x (RInt (inner x) (lo x) (hi x))) a b).
+Proof. exact (reentrant_exact I m p mi q outer inner lo hi a b). Qed.
+Print Assumptions C13_reentrant_exact.
 
 (** "each argument of the integrand receives the variable of its own pair of limits": Integrate_2D / Integrate_3D equal the
     iterated integral, x over (x1,x2) outermost, then y over (y1,y2), then z over (z1,z2). *)
